@@ -1,0 +1,60 @@
+package fluentdforward
+
+import (
+	"bytes"
+	"strings"
+	"testing"
+
+	"github.com/relex/fluentlib/protocol/forwardprotocol"
+	"github.com/relex/gotils/logger"
+	"github.com/relex/slog-agent/base"
+	"github.com/relex/slog-agent/base/bconfig"
+	"github.com/relex/slog-agent/defs"
+	"github.com/relex/slog-agent/rewrite/rinline"
+	"github.com/relex/slog-agent/rewrite/runescape"
+	"github.com/stretchr/testify/assert"
+	"github.com/vmihailenco/msgpack/v4"
+)
+
+// Records whose serialized form does not fit the preallocated buffer (2 x InputLogMaxRecordBytes) must still be
+// serialized completely: header fields are not limited by the parser and transforms can multiply field values.
+func TestForwardLogEventSerializerOversizedRecords(t *testing.T) {
+	schema := base.MustNewLogSchema([]string{"host", "app", "class", "log"})
+	config := SerializationConfig{
+		EnvironmentFields: []string{"host"},
+		HiddenFields:      []string{"class"},
+		RewriteFields: map[string][]bconfig.LogRewriterConfigHolder{
+			"log": {
+				{Location: "", Value: &rinline.Config{Field: "class"}},
+				{Location: "", Value: &runescape.Config{}},
+			},
+		},
+	}
+	serializer, err := NewEventSerializer(logger.Root(), schema, config)
+	assert.NoError(t, err)
+	limit := 2 * defs.InputLogMaxRecordBytes
+
+	for _, sizes := range [][4]int{
+		{10, 10, 10, 10},
+		{limit - 60, 3, 0, 4}, {limit - 50, 3, 0, 4}, {limit - 40, 3, 0, 4}, {limit, 3, 0, 4}, // environment field
+		{4, limit - 40, 0, 4}, {4, 3 * limit / 2, 0, 4}, // plain field
+		{4, 3, 0, limit - 40}, {4, 3, 0, limit + 1}, // rewritten field
+		{4, 3, limit, 100}, // inlined field
+	} {
+		record := schema.NewTestRecord1(base.LogFields{
+			strings.Repeat("h", sizes[0]), strings.Repeat("a", sizes[1]), strings.Repeat("c", sizes[2]), strings.Repeat(`l\n`, sizes[3]/3+1)[:sizes[3]],
+		})
+		var stream base.LogStream
+		if !assert.NotPanics(t, func() { stream = serializer.SerializeRecord(record) }, sizes) {
+			continue
+		}
+		var entry forwardprotocol.EventEntry
+		decoder := msgpack.NewDecoder(bytes.NewBuffer(stream))
+		if assert.NoError(t, decoder.Decode(&entry), sizes) {
+			assert.Equal(t, sizes[1], len(entry.Record["app"].(string)), sizes)
+			assert.Equal(t, sizes[0], len(entry.Record["environment"].(map[string]interface{})["host"].(string)), sizes)
+		}
+		_, err = decoder.DecodeInterface()
+		assert.EqualError(t, err, "EOF", sizes)
+	}
+}
